@@ -9,7 +9,7 @@
 From Coq Require Import String.
 From Emmet Require Import lib.Base lib.StyleLib model.CssTokenizer model.CssParser model.Score model.Color
      model.CssSnippets model.CssResolve model.CssFormat proofs.CssTokenizerProofs
-     proofs.StyleProofs proofs.StyleDashProofs proofs.StyleValueProofs.
+     proofs.StyleProofs proofs.StyleDashProofs proofs.StyleValueProofs proofs.StyleTokProofs.
 Local Open Scope N_scope.
 
 (* ---- colours: printing never changes the value *)
@@ -159,16 +159,46 @@ Proof. exact stringify_lines. Qed.
 Print Assumptions C05_one_property_per_line.
 
 (* ---- end to end.
-   FULL STATEMENT (value_seq_expand): for every key k of a property snippet and every sequence of numbers /
-   colours rendered with the statement's connectors (`-` after a unitless number or a colour, juxtaposition or
-   sign after a unit), optional `!`:
-       expand (k ++ rendered values) = <property><between><values by the unit / colour rules, joined by " ">
-                                       [" !important"]<after>.
-   PROVED (_partial): everything from the TOKEN LIST on, for ALL value sequences, all snippet tables and all
-   configurations without context / JSON: parser (C05_parser_value_seq), resolver + unit rule + formatter
-   (C05_value_seq_expand_partial).  MISSING: the scanner step "the rendered string tokenizes into exactly that
-   token list" for arbitrary digit strings; what is proved about it are the per-round dash-rule theorems above and
-   the tiling/losslessness theorems of C18; the harness compares the whole pipeline on the product grammar. *)
+   FULL STATEMENT (value_seq_expand): for every key of a property snippet and every `+`-joined list of value
+   sequences of numbers / colours rendered with the statement's connectors, optional `!`:
+       expand (rendered) = one line per property,
+                           <property><between><values by the unit / colour rules, joined by " ">[" !important"]<after>.
+   PROVED: C05_value_seq_expand_partial -- exactly that, FROM THE STRING, for ONE property (no `+`), for ALL names
+   made of letters, ALL digit strings / units / hex strings (any length), ALL snippet tables in which the name selects
+   a property snippet (C06_keys_reach_self: every built-in key does) and ALL configurations without context / JSON.
+   It composes the scanner step (C05_value_seq_tokenize), the parser (C05_parser_value_seq) and resolver + unit rule
+   + formatter (C05_value_seq_expand_from_tokens).  MISSING for the full statement: several properties joined by `+`
+   (proved on the formatter side only: C05_one_property_per_line), an explicit `:` after the name, `!` elsewhere than
+   at the end; the harness compares the whole pipeline on those. *)
+
+(* the value grammar: [VNum (mkNum neg ip fp unit)] is  -? ip (. fp)? unit ; [VCol (mkCol hex alpha)] is  # hex (. alpha)? ;
+   [render_vals]: after a unit-less number or a colour a `-` precedes the next value, after a unit the next value is
+   juxtaposed (its leading `-` is its sign); [render_abbr key vals bang] = key ++ values ++ "!"? *)
+Theorem C05_value_seq_tokenize :
+  forall key vals bang,
+    key_ok key -> Forall val_ok vals -> vals <> [] ->
+    exists lit0 ts vs b,
+      ctokenize false (render_abbr key vals bang) = CTOk (lit0 :: ts ++ bang_tail bang b) /\
+      ck lit0 = CLiteral key /\ body_of ts vs /\ map ck vs = map val_kind vals /\ k_is_important (ck b) = true.
+Proof. exact value_seq_tokenize. Qed.
+Print Assumptions C05_value_seq_tokenize.
+
+(* [value_text_k cfg prop k]: a number prints frac(value, 4) ++ unit_spec cfg prop value raw unit (C05_unit_rule);
+   a colour prints color(r, g, b, a, shortHex) with (r, g, b, a) = parse_color hex alpha (theorems C05_parse_color_1 .. 6) *)
+Theorem C05_value_seq_expand_partial :
+  forall cfg sn key key' prop value kws deps vals bang,
+    key_ok key -> Forall val_ok vals -> vals <> [] ->
+    c_context cfg = None -> c_json cfg = false ->
+    str_eqb key gradient_name = false ->
+    find_best_match sn_key key sn (c_min_score cfg) true = Some (SnProp key' prop value kws deps) ->
+    get_unmatched_part key key' 0 = [] ->
+    expand_with cfg sn (render_abbr key vals bang) =
+    Ok (push_string cfg (prop ++ c_between cfg) ++
+        join [c_space] (map (fun v => value_text_k cfg prop (val_kind v)) vals) ++
+        (if bang then lit " !important" else []) ++ c_after cfg).
+Proof. exact value_seq_expand. Qed.
+Print Assumptions C05_value_seq_expand_partial.
+
 Theorem C05_parser_value_seq :
   forall (lit0 b : ctoken) key ts vs bang,
     ck lit0 = CLiteral key ->                 (* the property name *)
@@ -179,7 +209,7 @@ Proof. exact parser_value_seq. Qed.
 Print Assumptions C05_parser_value_seq.
 
 (* [value_text cfg prop t]: a number prints frac(value, 4) ++ unit_spec ...; a colour prints color(r, g, b, a, shortHex) *)
-Theorem C05_value_seq_expand_partial :
+Theorem C05_value_seq_expand_from_tokens :
   forall cfg sn abbr (lit0 b : ctoken) key key' prop value kws deps ts vs bang,
     ctokenize false abbr = CTOk (lit0 :: ts ++ bang_tail bang b) ->
     ck lit0 = CLiteral key -> body_of ts vs -> k_is_important (ck b) = true ->
@@ -193,7 +223,7 @@ Theorem C05_value_seq_expand_partial :
         join [c_space] (map (value_text cfg prop) vs) ++
         (if bang then lit " !important" else []) ++ c_after cfg).
 Proof. exact value_seq_expand_from_tokens. Qed.
-Print Assumptions C05_value_seq_expand_partial.
+Print Assumptions C05_value_seq_expand_from_tokens.
 
 Theorem C05_unmatched_part_same : forall k, get_unmatched_part k k 0 = [].
 Proof. exact get_unmatched_part_same. Qed.
@@ -207,6 +237,21 @@ Example C05_nonvacuous :
   color 255 255 255 (mkDec false 5 1) true = lit "rgba(255, 255, 255, 0.5)" /\
   parse_color (lit "fc0") (lit ".5") = Some (255, 204, 0, mkDec false 5 1).
 Proof. vm_compute. repeat split; reflexivity. Qed.
+
+(* the string-level theorem is not vacuous: "m10-#fc0-5e!" is render_abbr of a well-formed value list *)
+Example C05_value_seq_render_nonvacuous :
+  let vals := [VNum (mkNum false (lit "10") None []); VCol (mkCol (lit "fc0") None);
+               VNum (mkNum true (lit "5") None (lit "e"))] in
+  render_abbr (lit "m") vals true = lit "m10-#fc0--5e!" /\ key_ok (lit "m") /\ Forall val_ok vals.
+Proof.
+  cbv zeta. split; [reflexivity|]. split.
+  - split; [discriminate|]. repeat constructor.
+  - constructor; [|constructor; [|constructor; [|constructor]]].
+    + cbn. split; [repeat constructor|]. split; [exact I|]. split; [left; discriminate|left; reflexivity].
+    + cbn. split; [discriminate|]. split; [repeat constructor|exact I].
+    + cbn. split; [repeat constructor|]. split; [exact I|]. split; [left; discriminate|].
+      right; right. split; [discriminate|repeat constructor].
+Qed.
 
 (* the hypotheses of the end-to-end theorem are satisfiable: "m10-#fc0-5e!" has the token shape it asks for *)
 Example C05_value_seq_nonvacuous :
